@@ -693,6 +693,86 @@ func (g *gen) op() Op {
 	}
 }
 
+// liveness kinds of an object associated with a target (multiLock)
+const (
+	aLive = iota // LOCK that stays unexpired while the history runs
+	aExpd        // LOCK that has expired when the queries start, not yet collected by the GC
+	aMark        // LOCK carrying a default garbage mark (removed itself)
+	aRedu        // LOCK carrying a redundant mark (still protects)
+	aNonL        // not a LOCK at all: regular / link object with the association attribute
+	aKinds
+)
+
+// multiLock is the scripted opening "several associated objects on ONE target": the target
+// (1,1) gets the associated objects 3 < 5 < 7 whose liveness is mixed systematically in both
+// ID orders (variant k), so that "locked" is decided by a lock that is neither the first nor
+// the only entry of the association index; 4 is the tombstone for the same target. After the
+// puts the epoch source advances past the early expirations WITHOUT a GC event (the expired
+// locks are still stored), a tombstone is attempted, and half of the histories let the GC run.
+func (g *gen) multiLock(k int, put func(c, id int) Op) []Op {
+	r := g.r
+	var kinds [3]int
+	rnd := func() int { return r.n(aKinds) }
+	switch k % 8 {
+	case 0:
+		kinds = [3]int{aExpd, aLive, rnd()}
+	case 1:
+		kinds = [3]int{aLive, aExpd, rnd()}
+	case 2:
+		kinds = [3]int{aMark, aLive, rnd()}
+	case 3:
+		kinds = [3]int{aLive, aMark, rnd()}
+	case 4:
+		kinds = [3]int{aNonL, aLive, rnd()}
+	case 5:
+		kinds = [3]int{aExpd, aMark, aLive}
+	case 6:
+		kinds = [3]int{aNonL, aExpd, aLive}
+	default:
+		kinds = [3]int{rnd(), rnd(), rnd()} // also: no live lock at all
+	}
+	tgt := &Obj{C: 1, ID: 1, T: 0, Size: 3, Exp: -1}
+	if r.p(50) {
+		tgt.Exp = 1 // the target itself expires: only a live lock keeps it
+	}
+	g.cat[1][1] = tgt
+	g.cat[1][4] = &Obj{C: 1, ID: 4, T: 1, Exp: -1, Assoc: 1}
+	ids := [3]int{3, 5, 7}
+	var marks []Op
+	for j, id := range ids {
+		o := &Obj{C: 1, ID: id, T: 2, Exp: -1, Assoc: 1}
+		switch kinds[j] {
+		case aLive:
+			if r.p(50) {
+				o.Exp = int64(6 + r.n(3))
+			}
+		case aExpd:
+			o.Exp = int64(1 + r.n(2))
+		case aMark:
+			marks = append(marks, Op{K: "mark", C: 1, IDs: []int{id}, M: 0})
+		case aRedu:
+			marks = append(marks, Op{K: "mark", C: 1, IDs: []int{id}, M: 1})
+		case aNonL:
+			o.T = []int{0, 3}[r.n(2)]
+			o.Size = uint64(1 + r.n(5))
+		}
+		g.cat[1][id] = o
+	}
+	ops := []Op{put(1, 1)}
+	perm := [][3]int{{0, 1, 2}, {0, 2, 1}, {1, 0, 2}, {1, 2, 0}, {2, 0, 1}, {2, 1, 0}}[r.n(6)]
+	for _, j := range perm {
+		ops = append(ops, put(1, ids[j]))
+	}
+	ops = append(ops, marks...)
+	g.epoch = 3
+	ops = append(ops, Op{K: "epoch", E: 3}, put(1, 4))
+	if r.p(50) {
+		g.gcur = 3
+		ops = append(ops, Op{K: "event", E: 3}, Op{K: "pass"})
+	}
+	return ops
+}
+
 func genHistory(seed uint64, i int, length int, profile string) (int, []Op) {
 	r0 := &rng{s: seed}
 	r1 := &rng{s: uint64(i)*0xD1342543DE82EF95 + 0x1234567}
@@ -723,6 +803,8 @@ func genHistory(seed uint64, i int, length int, profile string) (int, []Op) {
 			g.cat[1][3] = &Obj{C: 1, ID: 3, T: 2, Exp: 2, Assoc: 1}
 			g.epoch, g.gcur = 2, 4
 			ops = append(ops, put(1, 1), put(1, 3), Op{K: "epoch", E: 2}, Op{K: "event", E: 4}, Op{K: "pass"})
+		case 1:
+			ops = append(ops, g.multiLock(i/4, put)...)
 		}
 	}
 	for len(ops) < n {
